@@ -35,7 +35,8 @@ def observe_scene(scene, model):
             v = scene.params[name]
         else:
             oi = int(kind[3:])
-            obj = scene.objects[oi]
+            # object number k is the one created at x = 10 k (scene.objects lists the ego first)
+            (obj,) = [o for o in scene.objects if o.position.x == 10 * oi]
             v = getattr(obj, name)
         out.append((label, _freeze(v)))
     return tuple(out)
